@@ -49,7 +49,7 @@ macro_rules! lb {
 }
 lb!(c26_o1_t_lb_1223, [1u8, 2, 2, 3]);
 lb!(c26_o1_t_lb_1133, [1u8, 1, 3, 3]);
-lb!(c26_o1_t_lb_2222, [2u8, 2, 2, 2]);
+lb!(c26_o1_a_lb_2222, [2u8, 2, 2, 2]);
 lb!(c26_o1_t_lb_123, [1u8, 2, 3]);
 
 #[kani::proof]
@@ -111,9 +111,9 @@ macro_rules! ins {
         }
     };
 }
-ins!(c26_o2_t_ins_123, [1u8, 2, 3]);
-ins!(c26_o2_t_ins_22, [2u8, 2]);
-ins!(c26_o2_t_ins_1223, [1u8, 2, 2, 3]);
+ins!(c26_o2_a_ins_123, [1u8, 2, 3]);
+ins!(c26_o2_a_ins_22, [2u8, 2]);
+ins!(c26_o2_a_ins_1223, [1u8, 2, 2, 3]);
 
 // ------------------------------------------------------------------ O3: varint
 #[kani::proof]
@@ -152,7 +152,7 @@ fn delete_on(keys: &[u8]) {
 }
 #[kani::proof]
 #[kani::unwind(8)]
-fn c26_o6_t_delete_from_leaf_1223() {
+fn c26_o6_a_delete_from_leaf_1223() {
     delete_on(&[1u8, 2, 2, 3]);
 }
 
@@ -272,7 +272,7 @@ fn delete_equal_keys(p_old: u64, p_new: u64, delete_new: bool) {
 #[kani::unwind(8)]
 #[kani::stub(Pager::read_page, stub_read_page)]
 #[kani::stub(Pager::write_page, stub_write_page)]
-fn c26_o5_t_delete_equal_keys_increasing_payloads() {
+fn c26_o5_a_delete_equal_keys_increasing_payloads() {
     delete_equal_keys(10, 20, kani::any());
 }
 
@@ -281,7 +281,7 @@ fn c26_o5_t_delete_equal_keys_increasing_payloads() {
 #[kani::unwind(8)]
 #[kani::stub(Pager::read_page, stub_read_page)]
 #[kani::stub(Pager::write_page, stub_write_page)]
-fn c26_o5_t_delete_equal_keys_decreasing_payloads() {
+fn c26_o5_a_delete_equal_keys_decreasing_payloads() {
     delete_equal_keys(20, 10, kani::any());
 }
 
@@ -312,7 +312,7 @@ fn c26_o5_a_delete_equal_keys_decreasing_payloads_symbolic() {
 #[kani::unwind(8)]
 #[kani::stub(Pager::read_page, stub_read_page)]
 #[kani::stub(Pager::write_page, stub_write_page)]
-fn c26_o5_t_delete_distinct_keys() {
+fn c26_o5_a_delete_distinct_keys() {
     let mut buf = [0u8; PAGE_SIZE];
     leaf_with(&mut buf, &[1u8, 2, 3]);
     unsafe {
